@@ -120,7 +120,7 @@ def build_rbf_kernel(case):
                "subset the same through the only memory-safe call (control points restricted by the caller) plus the "
                "interface requirement; non-trivial = l != 1 somewhere, >= 2 active features, alpha not all equal",
           tolerances={"value_rtol": 1e-12, "grad_rtol": 1e-12},
-          assumptions=["RBFEvaluator private fields _indexes/_nfeat are read to avoid calling the C routine with inconsistent strides"])
+          assumptions=["RBFEvaluator private fields _indexes/_X1ctrl are read (when present) to avoid calling the C routine with inconsistent strides"])
 def c_rbf(case, ctx):
     from ciderpress.dft.xc_evaluator import RBFEvaluator
 
@@ -144,39 +144,36 @@ def c_rbf(case, ctx):
     if len(cols) >= 2 and case["nctrl"] >= 2:
         ctx.nontrivial([form, proper, n1, len(cols), case["scale"] is None, case["via"]])
     ev = G.guard(ctx, ("evaluator_constructor", form), lambda: RBFEvaluator(kernel, Xc, alpha), always=True)
-    got_idx = [int(i) for i in np.asarray(ev._indexes).ravel()]
-    ctx.check(got_idx == cols, ("index_extraction", form), got=got_idx, want=cols, indexes=str(idx))
-    if not proper:
-        Xin = np.asfortranarray(X) if case["order_f"] else X
-        f, g = G.guard(ctx, ("call", form), lambda: ev(Xin), always=True)
-        ctx.close(f, f_ref, ("value", form), rtol=1e-12, scale=S)
-        ctx.close(g, g_ref, ("gradient", form), rtol=1e-12, scale=Sg)
-        res0, dres0 = rng.normal(size=len(X)), rng.normal(size=X.shape)
-        res, dres = res0.copy(), dres0.copy()
-        G.guard(ctx, ("call_accumulate", form), lambda: ev(X, res, dres), always=True)
-        ctx.close(res, res0 + f_ref, ("accumulate_value", form), rtol=1e-12, scale=S + 4.0)
-        ctx.close(dres, dres0 + g_ref, ("accumulate_gradient", form), rtol=1e-12, scale=Sg + 4.0)
-        return
-    # proper subset.  (i) what can work at all: the caller restricts the control points himself
-    ev2 = G.guard(ctx, ("evaluator_constructor", form), lambda: RBFEvaluator(kernel, np.ascontiguousarray(Xc[:, cols]), alpha),
-                  always=True)
-    ctx.check([int(i) for i in ev2._indexes] == cols and ev2._nfeat == len(cols), ("index_extraction", form))
-    f, g = G.guard(ctx, ("call", form), lambda: ev2(X), always=True)
-    ctx.close(f, f_ref, ("value_restricted_ctrl", form), rtol=1e-12, scale=S)
-    ctx.check(g.shape == (len(X), len(cols)) or g.shape == X.shape, ("gradient_shape", form), got=g.shape)
-    if g.shape == X.shape:
-        ctx.close(g, g_ref, ("gradient_restricted_ctrl", form), rtol=1e-12, scale=Sg)
-    else:
+    got_idx = getattr(ev, "_indexes", None)
+    stride_ok = True
+    if got_idx is not None:
+        got_idx = [int(i) for i in np.asarray(got_idx).ravel()]
+        ctx.check(got_idx == cols, ("index_extraction", form), got=got_idx, want=cols, indexes=str(idx))
+        # the C routine is called with the width of the stored control points as the row stride of the indexed X1
+        stride_ok = np.shape(ev._X1ctrl)[-1] == len(cols)
+    if not stride_ok:
+        # Unsafe to call (out-of-bounds reads and writes).  What can work at all: the caller restricts the control
+        # points himself; judge that, then report the interface defect.
+        ev2 = G.guard(ctx, ("evaluator_constructor", form), lambda: RBFEvaluator(kernel, np.ascontiguousarray(Xc[:, cols]), alpha),
+                      always=True)
+        ctx.check([int(i) for i in ev2._indexes] == cols and np.shape(ev2._X1ctrl)[-1] == len(cols), ("index_extraction", form))
+        f, g = G.guard(ctx, ("call", form), lambda: ev2(X), always=True)
+        ctx.close(f, f_ref, ("value_restricted_ctrl", form), rtol=1e-12, scale=S)
+        ctx.check(g.shape == (len(X), len(cols)), ("gradient_shape", form), got=g.shape)
         ctx.close(g, g_ref[:, cols], ("gradient_restricted_ctrl", form), rtol=1e-12, scale=Sg)
-    # (ii) the evaluator interface: same (kernel, X1ctrl, alpha) as KernelEvaluator, full-width X1 / dres.
-    # With X1ctrl of full width the C routine would be called with the stride of X1ctrl on arrays of the
-    # subset width (out-of-bounds reads and writes), so that call is not made: the mismatch itself is the finding.
-    ctx.check(ev._nfeat == len(cols), ("proper_subset_unusable", "control_points_not_restricted"),
-              nfeat_used_as_stride=int(ev._nfeat), subset_width=len(cols), form=form)
-    res, dres = np.zeros(len(X)), np.zeros(X.shape)
-    G.guard(ctx, ("proper_subset_unusable", "full_width_dres_rejected"), lambda: ev(X, res, dres), always=True)
-    ctx.close(res, f_ref, ("value", form), rtol=1e-12, scale=S)
-    ctx.close(dres, g_ref, ("gradient", form), rtol=1e-12, scale=Sg)
+        ctx.check(False, ("proper_subset_unusable", "control_points_not_restricted"),
+                  stride_used=int(np.shape(ev._X1ctrl)[-1]), subset_width=len(cols), form=form)
+    # the evaluator interface: same (kernel, X1ctrl, alpha) as KernelEvaluator, full-width X1, res and dres
+    Xin = np.asfortranarray(X) if case["order_f"] else X
+    f, g = G.guard(ctx, ("call", form), lambda: ev(Xin), always=True)
+    ctx.close(f, f_ref, ("value", form), rtol=1e-12, scale=S)
+    ctx.check(g.shape == X.shape, ("gradient_shape", form), got=g.shape, want=X.shape)
+    ctx.close(g, g_ref, ("gradient", form), rtol=1e-12, scale=Sg)
+    res0, dres0 = rng.normal(size=len(X)), rng.normal(size=X.shape)
+    res, dres = res0.copy(), dres0.copy()
+    G.guard(ctx, ("call_accumulate", form), lambda: ev(X, res, dres), always=True)
+    ctx.close(res, res0 + f_ref, ("accumulate_value", form), rtol=1e-12, scale=S + 4.0)
+    ctx.close(dres, dres0 + g_ref, ("accumulate_gradient", form), rtol=1e-12, scale=Sg + 4.0)
 
 
 # =================================================================================================
